@@ -96,12 +96,17 @@ def drive(ctx, driver, inputs, mode="fmt", procs=None):
     return recs
 
 
-def tla_rec(r, exp=None, pred=None):
+def tla_rec(r, exp=None, pred=None, pp=None):
     o = {k: r[k] for k in ("in", "toks", "lexend", "lexerr", "p1", "same", "fmt", "p2", "fmt2", "outcome")}
     o["hasexp"] = exp is not None
     o["exp"] = exp if exp is not None else []
     o["haspred"] = pred is not None
     o["pred"] = pred if pred is not None else []
+    if isinstance(pred, dict):        # LexSM/ParseSM item: {"toks": [...], "pp": {...}}
+        o["pred"] = pred["toks"]
+        pp = pred["pp"]
+    o["haspp"] = pp is not None
+    o["pp"] = pp if pp is not None else {"k": "", "line": 0}
     return o
 
 
@@ -136,7 +141,9 @@ def judge(ctx, recs, chunk=25000, par=12):
 def gather_inputs(ctx, pid, tier):
     """-> list of (bytes, expected tree or None, predicted tokens or None, source tag)"""
     items = []
+    import syn_sources
     if pid != "C06":
+        items += syn_sources.lexsm_source(ctx, pid, tier)
         for b in class_strings(tier):
             items.append((b, None, None, "class"))
         rt = repo_texts()
@@ -144,7 +151,6 @@ def gather_inputs(ctx, pid, tier):
             items.append((b, None, None, "repo"))
         for b in prefixes(rt, cap=600 if tier == "quick" else 4000):
             items.append((b, None, None, "repo-prefix"))
-    import syn_sources
     items += syn_sources.generated(ctx, pid, tier)
     return items
 
@@ -161,7 +167,7 @@ def run(ctx):
     for it in items:
         k = it[0]
         if k in seen:
-            if uniq[seen[k]][1] is None and it[1] is not None:
+            if uniq[seen[k]][1] is None and uniq[seen[k]][2] is None and (it[1] is not None or it[2] is not None):
                 uniq[seen[k]] = it
             continue
         seen[k] = len(uniq)
@@ -173,6 +179,9 @@ def run(ctx):
     v = judge(ctx, recs)
     bad = v.get(rel, [])
     drift = len(v.get("Drift_Toks", []))
+    pdrift = len(v.get("Drift_Parse", []))
+    if pdrift:
+        ctx.notes.append("model_drift: %d inputs whose real parse outcome differs from ParseSM's prediction (first: %r)" % (pdrift, items[v["Drift_Parse"][0]][0][:80]))
     if drift:
         ctx.notes.append("model_drift: %d inputs whose real token stream differs from the stream the specification denotes/predicts (first: %r)"
                          % (drift, items[v["Drift_Toks"][0]][0][:80]))
@@ -219,7 +228,7 @@ def run(ctx):
                                            "C07": "inputs that parse", "C11": "inputs that parse", "C15": "parsed inputs containing a comment or docstring"}[pid]
                 + " (counted by TLC)",
         "model": model_info,
-        "judge": {"module": "SyntaxJudge", "relation": rel, "parsed": v.get("nParsed"), "errors": v.get("nErrors"), "token_stream_drift": drift},
+        "judge": {"module": "SyntaxJudge", "relation": rel, "parsed": v.get("nParsed"), "errors": v.get("nErrors"), "token_stream_drift": drift, "parse_outcome_drift": pdrift},
         "selftest_corrupted_record_rejected": st,
         "exhaustive": True,
     }, assumptions=["white space between tokens of the generated inputs is ASCII white space", "hex-encoded strings are compared byte for byte",
